@@ -2,6 +2,7 @@ import TsVerif.C01.Judge
 import TsVerif.C01.Stream
 import TsVerif.C01.Lemmas
 import TsVerif.C01.Skel
+import TsVerif.C01.GateLoop
 import TsVerif.C10.Model
 /-!
 # C01 — Incremental re-parse equals parsing the new text from scratch
@@ -77,8 +78,12 @@ Details per group of theorems
   meets no range difference is lexed identically under the new ranges) — `incr_eq_scratch` covers
   exactly the histories (edits AND range changes) for which the certificates hold on the new token
   sequence; the two lexer-side exceptions are the findings named in `LexLocalV`'s comment.
+* the loop: `GateLoop.lean` (`OTree`, frontier iterator, `gstep`, `gloop`, `CertT/CertL`,
+  `gstep_incr`), `gloop_incr`, `gate_loop_eq_scratch_partial`: the gate-driven re-parse loop is an
+  incremental run, hence ends where the from-scratch parse ends.
 * OPEN: GLR versions in the theorems, error recovery (what happens AFTER the first error), keyword
-  re-labelling inside the machine; the gate-driven run itself (`stray = 0`).  On the implementation whole-tree equality is DECIDED per case by
+  re-labelling inside the machine; `breakdown_top_of_stack` in the loop; that the loop reuses every
+  maximal unmarked subtree (`stray = 0`).  On the implementation whole-tree equality is DECIDED per case by
   `judge` (Judge.lean).
 * Genuine defect found by the judge (see the last section): a column-dependent token is reused
   although an included-range difference lies earlier on its line.  `reuseGate` therefore carries
@@ -700,6 +705,43 @@ theorem gate_state_test_partial (T : LR.Table) (bottom k : Nat) (pre post : List
     · have := congrArg List.length h2
       simpa using this.symm
 
+/-- `stuck_same_symbols`: whether the machine is stuck (reports a syntax error) in a configuration
+depends only on the parse states and the SYMBOL of the look-ahead token — error DETECTION is a
+function of the token-symbol sequence, independent of positions, sizes and of how the tokens were
+obtained (lexed or reused). -/
+theorem stuck_same_symbols (T : LR.Table) (bottom : Nat) (st : LR.Stack) (inp : List Tok) :
+    LR.step T bottom st inp = none ↔ LR.step T bottom (st.map LR.skelE) (inp.map LR.skelTok) = none := by
+  rw [LR.step_skel]
+  cases LR.step T bottom st inp <;> simp
+
+/-! ### "both … report an error": what is proved and what is judged only
+
+PROVED (machine): `incr_error_iff` — a halted incremental run is stuck iff the from-scratch run of
+the same tokens is stuck, in the SAME configuration (same stack, same remaining input, hence the
+same first offending token); `stuck_same_symbols` — being stuck depends on states and token symbols
+only.  So "the incremental parse detects an error iff the from-scratch parse does, at the same
+token" holds for deterministic tables up to the FIRST error.
+
+JUDGED ONLY (`judge`: both roots `has_error()` and `error_cost > 0` whenever the scratch dump
+contains ERROR/MISSING; recovery SHAPES may differ and are not compared), i.e. everything
+`ts_parser__handle_error` / `ts_parser__recover` / `ts_parser__condense_stack` do after the machine
+is stuck:
+* the choice between skipping tokens (`skip_token`), popping to a previous state
+  (`recover_to_previous`), inserting MISSING tokens (`recover_with_missing`) and wrapping in ERROR,
+  made by comparing error costs across stack VERSIONS (`ts_parser__compare_versions`,
+  `MAX_COST_DIFFERENCE`, `ERROR_COST_PER_*`);
+* lexing in the error state (lex mode of `ERROR_STATE`, `skip_unrecognized_character`), the
+  `ERROR`-leaf for unrecognised characters, `ts_parser__better_version_exists`, pausing/resuming of
+  versions, `MAX_VERSION_COUNT`;
+* REUSE while recovering: old nodes reused in state 0 through the Recover action, old ERROR /
+  MISSING / fragile nodes refused by the gate (`cant_reuse_node_is_error` … — the gate decision
+  itself is proved and replayed, what recovery then builds from the pieces is not);
+* that an erroneous intermediate tree, edited and re-parsed, yields a tree equal to scratch once
+  the text is in the language again (histories "through erroneous states" — judged on every such
+  step);
+* `has_error` propagation (`error_cost` summation in `ts_subtree_summarize_children`), the
+  `ts_node_has_error` API (C02's domain). -/
+
 /-! ## Re-lexing when the INCLUDED RANGES change
 
 `incr_eq_scratch` speaks about token sequences: it covers every history — text edits and changes
@@ -792,6 +834,55 @@ theorem reused_not_lexed (T : LR.Table) (bottom : Nat) (l r : Nat) (c d : LR.Sta
   | reuse _ _ ih =>
     simp only [List.length_append] at ih ⊢
     omega
+
+/-! ## The gate-driven re-parse loop is an incremental run -/
+
+/-- `gloop_incr`: any number of iterations of the gate-driven loop (`LR.gstep`: descend into marked
+or state-mismatched candidates, reuse unmarked candidates whose parse state is the current state,
+reduce with the candidate as look-ahead, lex marked leaves) is an `LR.IncrRun`, and the certificates
+of the remaining frontier are kept. -/
+theorem gloop_incr (T : LR.Table) (bottom : Nat) : ∀ (fuel : Nat) (st : LR.Stack) (front : List LR.OTree),
+    LR.CertL T front [] →
+    (∃ l r, LR.IncrRun T bottom l r (st, LR.yieldL front)
+      ((LR.gloop T bottom fuel st front).1, LR.yieldL (LR.gloop T bottom fuel st front).2)) ∧
+    LR.CertL T (LR.gloop T bottom fuel st front).2 []
+  | 0, st, front, hc => ⟨⟨0, 0, LR.IncrRun.done _⟩, hc⟩
+  | fuel + 1, st, front, hc => by
+    unfold LR.gloop
+    cases hg : LR.gstep T bottom st front with
+    | none => exact ⟨⟨0, 0, LR.IncrRun.done _⟩, hc⟩
+    | some c =>
+      obtain ⟨st', front'⟩ := c
+      obtain ⟨⟨l1, r1, h1⟩, hc'⟩ := LR.gstep_incr T bottom st st' front front' hg hc
+      obtain ⟨⟨l2, r2, h2⟩, hc''⟩ := gloop_incr T bottom fuel st' front' hc'
+      obtain ⟨l, r, _, _, h⟩ := LR.IncrRun.trans h1 h2
+      exact ⟨⟨l, r, h⟩, hc''⟩
+
+/-- `gate_loop_eq_scratch_partial` — the full re-parse LOOP (old-tree frontier + reuse gate +
+`breakdown_lookahead` + reduce-with-reused-look-ahead + re-lexing of marked leaves) for
+deterministic tables without external scanner and without fragile nodes: if the loop comes to a
+configuration where the machine halts, the from-scratch parse of the new token sequence halts in
+exactly that configuration (same stack = same tree), and the tokens it lexed plus the tokens below
+the subtrees it reused are the tokens it consumed.  Hypothesis: the certificates `CertL` (every
+unmarked node of the old tree is what the machine builds from its tokens in its recorded state —
+the property of an old tree that was itself produced by the machine; checked on the real reuse
+events by `certifyReuse`).
+
+NOT in the loop (so `_partial`): `ts_parser__breakdown_top_of_stack` (it only undoes earlier
+reuse when the follower of a reused node changed), the first-leaf test across lex modes, fragile
+nodes, external-scanner state, GLR, error recovery.
+OPEN (C12 `stray = 0`): that the loop REUSES every maximal unmarked subtree, i.e. never descends into
+an unmarked node because of a state mismatch — `gate_state_test_partial` shows the states agree with
+the old parse after a same-symbol replacement; what is missing is the alignment of the loop's
+position in the old run with the frontier. -/
+theorem gate_loop_eq_scratch_partial (T : LR.Table) (bottom fuel : Nat) (front : List LR.OTree)
+    (hc : LR.CertL T front [])
+    (hhalt : LR.step T bottom (LR.gloop T bottom fuel [] front).1 (LR.yieldL (LR.gloop T bottom fuel [] front).2) = none) :
+    (∃ n, ∀ m, LR.run T bottom (n + m) [] (LR.yieldL front) =
+      ((LR.gloop T bottom fuel [] front).1, LR.yieldL (LR.gloop T bottom fuel [] front).2)) ∧
+    (∃ l r, l + r + (LR.yieldL (LR.gloop T bottom fuel [] front).2).length = (LR.yieldL front).length) := by
+  obtain ⟨⟨l, r, h⟩, _⟩ := gloop_incr T bottom fuel [] front hc
+  exact ⟨incr_eq_scratch T bottom l r _ _ h hhalt, ⟨l, r, reused_not_lexed T bottom l r _ _ h⟩⟩
 
 /-- A table for `S → A c`, `A → a b` (tokens a=1, b=2, c=3; non-terminal A=10): the hypothesis of
 `subtree_reuse_sound` holds for `w = [a, b]`, `x = c`, `s = 0`, `k = 3`. -/
@@ -916,6 +1007,18 @@ theorem toy_diffspec : DiffSpec [(0, 2)] [(0, 2), (5, 6)] [(5, 6)] := by
 
 example : toyLexV () (viewOf [7, 8, 9, 9, 9, 4] [(0, 2), (5, 6)]) 0 = toyLexV () (viewOf [7, 8, 9, 9, 9, 4] [(0, 2)]) 0 :=
   relex_same_ranges toyLexV toyLexV_local () _ _ _ [(5, 6)] 0 toy_diffspec (by simp [RangesSorted]) (by decide)
+
+/-- The gate loop on the toy table: frontier = old subtree `A(a b)` (unmarked, built in state 0) and
+the leaf `c`; the loop reuses `A` and shifts `c`; the certificates hold. -/
+def toyFront : List LR.OTree := [.node false 0 10 [.leaf false (tk 1), .leaf false (tk 2)], .leaf false (tk 3)]
+
+theorem toyFront_cert : LR.CertL toyTable toyFront [] := by
+  refine LR.CertL.cons _ _ _ (LR.CertT.node _ _ _ _ _ (fun _ => ?_) ?_) (LR.CertL.cons _ _ _ (LR.CertT.leaf _ _ _) (LR.CertL.nil _))
+  · exact ⟨3, 0, ([{ state := 3, tree := toyA, extra := false }], [tk 3]), by rfl, by rfl⟩
+  · exact LR.CertL.cons _ _ _ (LR.CertT.leaf _ _ _) (LR.CertL.cons _ _ _ (LR.CertT.leaf _ _ _) (LR.CertL.nil _))
+
+example : (LR.gloop toyTable 0 5 [] toyFront).1.map (·.state) = [4, 3] ∧ (LR.gloop toyTable 0 5 [] toyFront).2.length = 0 := by
+  constructor <;> rfl
 
 /-! ## Finding `eof-lookahead-range-added`, at the level of the gate
 
